@@ -88,7 +88,8 @@ def sensitivity(seed, only=None, budget=30):
     for p in sorted(glob.glob(os.path.join(VERIF, "mutants", "*.patch"))):
         mid = os.path.basename(p)[:-6]
         m = meta.get(mid, {})
-        items.append((mid, m.get("property", mid.split("-")[0]), p, 1, m.get("expect_detect", True)))
+        for prop in m.get("checks", [m.get("property", mid.split("-")[0])]):
+            items.append((mid, prop, p, 1, m.get("expect_detect", True)))
     for d in sorted(glob.glob(os.path.join(VERIF, "seeded", "*"))):
         p = os.path.join(d, "patch.diff")
         mf = os.path.join(d, "meta.json")
